@@ -2,3 +2,10 @@
 -- `lake build` re-checks all theorems.
 import SkyllhModel.Scalar
 import SkyllhModel.Proto
+import SkyllhModel.Props.C12
+import SkyllhModel.Props.C08
+import SkyllhModel.Props.C15
+import SkyllhModel.Props.C06
+import SkyllhModel.Props.C13
+import SkyllhModel.Props.C09
+import SkyllhModel.Props.C04
